@@ -23,7 +23,7 @@ def reg_interval(i):
     if i == Z.SP2:
         return 0, 0
     if i == Z.IM:
-        return 0, 2
+        return 0, 255        # an 8-bit slot; the closures only test it for == 2
     return 0, 255
 
 
